@@ -1112,5 +1112,9 @@ def arg_wiring_rule(ctx):
     return res
 
 
-RULES = [arg_wiring_rule, init_stores, scalar_conv, placement, thickness_edit, media_chain, one_stop,
+def derived_sync_rule(ctx):
+    from .common import derived_sync
+    return derived_sync(ctx, 'DERIVED-SYNC')
+
+RULES = [derived_sync_rule, arg_wiring_rule, init_stores, scalar_conv, placement, thickness_edit, media_chain, one_stop,
          setter_writes, pickup, solve]
